@@ -38,8 +38,7 @@ import ast
 import re
 from .core import *
 from . import gen_jets as GJ
-from .gen_jets import (Tr, Meth, NeedKind, vname, tup, pat, assigned, is_none_test, terminal, only_prints, zlit,
-                       SELF_ATTRS, KINDS, LEV, PAIR)
+from .gen_jets import Tr, Meth, NeedKind, vname, tup, pat, assigned, is_none_test, terminal, only_prints, KINDS, LEV, PAIR
 
 SRC = GJ.SRC
 OUTPUTS = ["GenJetsRest"]
